@@ -562,6 +562,9 @@ Lemma sparql_kw_plain :
   nochar " "%char c_sel_sparql_kw = true /\ nochar "'"%char c_sel_sparql_kw = true /\ c_sel_sparql_kw <> [].
 Proof. repeat split; try reflexivity. discriminate. Qed.
 
+Lemma c_sel_sparql_strip_eq : c_sel_sparql_strip_once = true \/ c_sel_sparql_strip_once = false.
+Proof. destruct c_sel_sparql_strip_once; auto. Qed.
+
 Lemma parse_sparql_selector pd wf q :
   ok_query wf q = true ->
   parse_node_selector wf pd (Str "SPARQL '" ++ q ++ Str "'") = Ok (PSSparql q).
@@ -569,7 +572,6 @@ Proof.
   intros H. unfold ok_query in H.
   apply andb_true_iff in H; destruct H as [H H0]. apply andb_true_iff in H; destruct H as [H H1].
   apply andb_true_iff in H; destruct H as [H3 H2].
-  apply negb_true_iff in H2.
   unfold parse_node_selector.
   assert (Hstrip : strip (Str "SPARQL '" ++ q ++ Str "'") = Str "SPARQL '" ++ q ++ Str "'").
   { apply (strip_id_snoc "S"%char (Str "PARQL '" ++ q) "'"%char); reflexivity. }
@@ -580,9 +582,15 @@ Proof.
   unfold parse_sparql.
   destruct sparql_kw_plain as [K1 [K2 K3]].
   change (Str "SPARQL '" ++ q ++ Str "'") with (c_sel_sparql_kw ++ " "%char :: "'"%char :: q ++ ["'"%char]).
-  rewrite replace_all_prefix; [|assumption|].
-  2:{ rewrite contains_cons_nochar by assumption. rewrite contains_cons_nochar by assumption.
+  assert (Hkw : strip_sparql_kw (c_sel_sparql_kw ++ " "%char :: "'"%char :: q ++ ["'"%char]) =
+                [] ++ " "%char :: "'"%char :: q ++ ["'"%char]).
+  { unfold strip_sparql_kw. destruct c_sel_sparql_strip_eq as [E|E]; rewrite E in *.
+    - apply replace_once_prefix.
+    - cbn [orb] in H2. apply negb_true_iff in H2.
+      apply replace_all_prefix; [assumption|].
+      rewrite contains_cons_nochar by assumption. rewrite contains_cons_nochar by assumption.
       rewrite contains_snoc_nochar by assumption. assumption. }
+  rewrite Hkw.
   cbn [app]. rewrite strip_blank_cons.
   rewrite (strip_id_snoc "'"%char q "'"%char) by reflexivity.
   change (at_idx ("'"%char :: q ++ ["'"%char]) (-1)) with (at_idx (("'"%char :: q) ++ ["'"%char]) (-1)).
